@@ -58,7 +58,8 @@ func EnvNames(tier string) []string {
 	// a power-of-two gadget decomposition
 	// ckks-prec: the ckks encoder (stand-alone and inside the evaluator) in arbitrary precision (128 bits):
 	// big.Float / bignum.Complex scratch buffers and the embedArbitrary / big-number FFT code paths
-	n := []string{"bgv", "bfv", "ckks", "rlwe", "rlwe-coef", "bgv-1p", "rlwe-pow2", "ckks-prec"}
+	// ckks-ci: CKKS over the conjugate-invariant ring Z[X+X^-1]/(X^2N+1) (real slots only, NthRoot = 4N)
+	n := []string{"bgv", "bfv", "ckks", "rlwe", "rlwe-coef", "bgv-1p", "rlwe-pow2", "ckks-prec", "ckks-ci"}
 	if tier == "thorough" {
 		n = append(n, "ckks-1p")
 	}
@@ -100,14 +101,18 @@ func GetEnv(name string) *Env {
 		if err == nil {
 			e.RLWE = e.BGV.Parameters
 		}
-	case "ckks", "ckks-1p", "ckks-prec":
+	case "ckks", "ckks-1p", "ckks-prec", "ckks-ci":
 		e.Scheme = "ckks"
 		if name == "ckks-prec" {
 			e.Prec = 128
 		}
 		// q0 55 bits, then three 40-bit primes: LogDefaultScale 40 rescales exactly one prime per level
 		cq := append([]uint64{q[0]}, uni.Primes(LogN, 40, 3)...)
-		e.CKKS, err = ckks.NewParametersFromLiteral(ckks.ParametersLiteral{LogN: LogN, Q: cq, P: p, LogDefaultScale: 40})
+		rt := ring.Standard
+		if name == "ckks-ci" {
+			rt = ring.ConjugateInvariant
+		}
+		e.CKKS, err = ckks.NewParametersFromLiteral(ckks.ParametersLiteral{LogN: LogN, Q: cq, P: p, LogDefaultScale: 40, RingType: rt})
 		if err == nil {
 			e.RLWE = e.CKKS.Parameters
 		}
@@ -133,8 +138,19 @@ func GetEnv(name string) *Env {
 	rlk := kg.GenRelinearizationKeyNew(e.SK, evkp...)
 	// every non-trivial Galois element of Z_{2N}^*: all rotations, conjugation, traces are available
 	n2 := uint64(e.RLWE.RingQ().NthRoot())
-	for g := uint64(3); g < n2; g += 2 {
-		e.GalEls = append(e.GalEls, g)
+	if e.RLWE.RingType() == ring.ConjugateInvariant {
+		// the automorphisms of the conjugate-invariant ring are the rotations X -> X^(5^k) only
+		seen := map[uint64]bool{1: true}
+		for k := 1; k < e.RLWE.N(); k++ {
+			if g := e.RLWE.GaloisElement(k); !seen[g] {
+				seen[g] = true
+				e.GalEls = append(e.GalEls, g)
+			}
+		}
+	} else {
+		for g := uint64(3); g < n2; g += 2 {
+			e.GalEls = append(e.GalEls, g)
+		}
 	}
 	gks := kg.GenGaloisKeysNew(e.GalEls, e.SK, evkp...)
 	e.Evk = rlwe.NewMemEvaluationKeySet(rlk, gks...)
@@ -254,4 +270,101 @@ func (e *Env) DirtyMeta(m *rlwe.MetaData) {
 	}
 	m.LogDimensions = ring.Dimensions{Rows: 0, Cols: 1}
 	m.IsBatched = !m.IsBatched
+}
+
+// ---------------------------------------------------------------------------------------------
+// companion ring of twice the degree (ring-degree switching: Y = X^{N/n})
+
+// LargeRing is the companion of an rlwe environment: same moduli, LogN+1, with a secret key and the two
+// evaluation keys small<->large generated by the key generator of the large ring.
+type LargeRing struct {
+	Params       rlwe.Parameters
+	SK           *rlwe.SecretKey
+	SmallToLarge *rlwe.EvaluationKey // skSmall -> skLarge
+	LargeToSmall *rlwe.EvaluationKey // skLarge -> skSmall
+}
+
+var (
+	largeMu    sync.Mutex
+	largeCache = map[string]*LargeRing{}
+)
+
+// Large returns (building it once per process, under a fixed PRNG seed) the companion ring of e.
+func (e *Env) Large() *LargeRing { return e.large(e.RLWE.RingType(), "") }
+
+// Standard returns the standard ring of twice the degree of a conjugate-invariant environment
+// (Z[X+X^-1]/(X^2N+1) embeds into Z[X]/(X^2N+1)).
+func (e *Env) Standard() *LargeRing { return e.large(ring.Standard, "/std") }
+
+func (e *Env) large(rt ring.Type, tag string) *LargeRing {
+	largeMu.Lock()
+	defer largeMu.Unlock()
+	if l, ok := largeCache[e.Name+tag]; ok {
+		return l
+	}
+	sampling.VerifSeed(0xC09AA<<24 | uint64(len(e.Name)+len(tag)))
+	p, err := rlwe.NewParametersFromLiteral(rlwe.ParametersLiteral{LogN: LogN + 1, Q: e.RLWE.Q(), P: e.RLWE.P(), NTTFlag: e.RLWE.NTTFlag(), RingType: rt})
+	if err != nil {
+		panic(fmt.Sprintf("optable.Large(%s): %v", e.Name, err))
+	}
+	kg := rlwe.NewKeyGenerator(p)
+	l := &LargeRing{Params: p, SK: kg.GenSecretKeyNew()}
+	if tag == "" {
+		l.SmallToLarge = kg.GenEvaluationKeyNew(e.SK, l.SK)
+		l.LargeToSmall = kg.GenEvaluationKeyNew(l.SK, e.SK)
+	}
+	largeCache[e.Name+tag] = l
+	return l
+}
+
+// CtN returns a ciphertext-shaped object with pseudo-random residues in the given parameters.
+func (g *Gen) CtN(p rlwe.Parameters, degree, level int) *rlwe.Ciphertext {
+	ct := rlwe.NewCiphertext(p, degree, level)
+	for i := range ct.Value {
+		g.FillPoly(p.RingQ(), ct.Value[i])
+	}
+	return ct
+}
+
+// ---------------------------------------------------------------------------------------------
+// ring packing keys (rings of degree N and 2N over the environment's moduli)
+
+// RingPack holds the evaluation keys of a rlwe.RingPackingEvaluator over LogN and LogN+1.
+type RingPack struct {
+	Key          *rlwe.RingPackingEvaluationKey
+	Small, Large rlwe.Parameters
+}
+
+var (
+	rpMu    sync.Mutex
+	rpCache = map[string]*RingPack{}
+)
+
+// RingPack returns (building it once per process, under a fixed PRNG seed) the ring packing keys of e.
+func (e *Env) RingPack() *RingPack {
+	rpMu.Lock()
+	defer rpMu.Unlock()
+	if r, ok := rpCache[e.Name]; ok {
+		return r
+	}
+	sampling.VerifSeed(0xC09BB<<24 | uint64(len(e.Name)))
+	large, err := rlwe.NewParametersFromLiteral(rlwe.ParametersLiteral{LogN: LogN + 1, Q: e.RLWE.Q(), P: e.RLWE.P(), NTTFlag: e.RLWE.NTTFlag()})
+	if err != nil {
+		panic(err)
+	}
+	sk := rlwe.NewKeyGenerator(large).GenSecretKeyNew()
+	lq, lp := large.MaxLevelQ(), large.MaxLevelP()
+	evkp := rlwe.EvaluationKeyParameters{LevelQ: &lq, LevelP: &lp}
+	key := &rlwe.RingPackingEvaluationKey{}
+	ski, err := key.GenRingSwitchingKeys(large, sk, LogN, evkp)
+	if err != nil {
+		panic(err)
+	}
+	for _, ln := range []int{LogN, LogN + 1} {
+		key.GenRepackEvaluationKeys(key.Parameters[ln], ski[ln], evkp)
+		key.GenExtractEvaluationKeys(key.Parameters[ln], ski[ln], evkp)
+	}
+	r := &RingPack{Key: key, Small: *key.Parameters[LogN].GetRLWEParameters(), Large: large}
+	rpCache[e.Name] = r
+	return r
 }
